@@ -540,6 +540,36 @@ func genC01(r *Run) {
 			r.Count("boundary-length")
 		}
 	}
+	// the option-set encoding cut short: an encoding that ends inside an instance (on its code octet, on its length
+	// octet, inside its value) does not decode to anything - the reassembly of split values relies on it; direct
+	// oracle on Options.FromBytes (which does not ask for an End option) plus the model on the same octets
+	for _, l := range []int{0, 1, 2, 254, 255, 256, 300, 510, 511} {
+		o := dhcpv4.Options{}
+		o.Update(dhcpv4.OptGeneric(dhcpv4.GenericOptionCode(5), r.Bytes(l)))
+		o.Update(dhcpv4.OptGeneric(dhcpv4.GenericOptionCode(12), []byte("hi")))
+		enc := o.ToBytes()
+		// instance boundaries of enc
+		bound := map[int]bool{0: true}
+		for i := 0; i+1 < len(enc); {
+			i += 2 + int(enc[i+1])
+			bound[i] = true
+		}
+		for t := 0; t <= len(enc); t++ {
+			if t > 6 && t < len(enc)-8 && t%37 != 0 && !bound[t] && !bound[t-1] && !bound[t+1] && !bound[t-2] {
+				continue // sample the interior of long values
+			}
+			cut := enc[:t]
+			r.Add(eV4Opts, cut)
+			var d dhcpv4.Options = dhcpv4.Options{}
+			err := d.FromBytes(append([]byte{}, cut...))
+			if bound[t] && err != nil {
+				r.Fail("options-prefix-rejected", hx(cut), "an encoding cut at an instance boundary is a shorter option set: "+err.Error())
+			}
+			if !bound[t] && err == nil {
+				r.Fail("cut-encoding-accepted", hx(trunc2(cut, 40))+fmt.Sprintf("... (%d of %d octets)", t, len(enc)), "an option-set encoding cut inside an instance decoded without error")
+			}
+		}
+	}
 	// chaddr lengths 0..16 in the domain, 17, 20, 255, 256 outside it (pins the model's out-of-domain behaviour)
 	for _, hl := range []int{0, 1, 2, 3, 4, 5, 6, 7, 8, 9, 10, 11, 12, 13, 14, 15, 16, 17, 20, 255, 256} {
 		a := r.randPkt(r.randOpts(3, 40))
